@@ -216,7 +216,7 @@ def validate_api(chk, traces, key_of=None, nproc=6, max_rejects=4, timeout=1800)
 MC_DIR = os.path.join(vlib.SPEC, "mc")
 
 
-def mc_leg(chk, name, tier="quick", cfg=None, workers=8, timeout=3000, xmx="8g", must_print=None, env=None, expect_violation=False):
+def mc_leg(chk, name, tier="quick", cfg=None, workers=8, timeout=3000, xmx="8g", must_print=None, env=None, expect_violation=False, coverage=True):
     """Run spec/mc/<name>.tla with <name>.cfg (or <name>_thorough.cfg in the thorough tier when it
     exists) under -coverage 1.  A failure of a design-level check is a defect of the
     specification, i.e. a tool error, not a violation of the code."""
@@ -226,7 +226,7 @@ def mc_leg(chk, name, tier="quick", cfg=None, workers=8, timeout=3000, xmx="8g",
         if tier == "thorough" and os.path.exists(t):
             cfg = t
     r = vlib.tlc(os.path.join(MC_DIR, name.split(":")[0] + ".tla"), cfg, os.path.join(chk.workdir, "mc_" + os.path.basename(cfg)), workers=workers,
-                 timeout=timeout, xmx=xmx, extra=["-coverage", "1"], env=env)
+                 timeout=timeout, xmx=xmx, extra=["-coverage", "1"] if coverage else [], env=env)
     ok = r["rc"] == 0 and "No error has been found" in r["out"]
     if expect_violation:
         if "is violated" not in r["out"]:
